@@ -375,8 +375,10 @@ pub fn cache_async(attr: TokenStream, item: TokenStream) -> TokenStream {
                 cachelito_core::InvalidationRegistry::global().register_callback(
                     #fn_name_str,
                     move || {
+                        // one critical section for both structures, like every other update
+                        let mut order = #order_ident.lock();
                         #cache_ident.clear();
-                        #order_ident.lock().clear();
+                        order.clear();
                     }
                 );
             });
